@@ -42,7 +42,7 @@ def build_driver():
         raise EngineError('driver build failed:\n' + r.stdout[-4000:])
 
 
-def extract(repo=None, target=None, features=None, tag='facts', crate='pearl'):
+def extract(repo=None, target=None, features=None, tag='facts', crate='pearl', _keep=None):
     """Run pearl-facts over the repo's current working tree; returns path to facts json."""
     repo = repo or REPO
     os.makedirs(CACHE, exist_ok=True)
@@ -87,7 +87,61 @@ def extract(repo=None, target=None, features=None, tag='facts', crate='pearl'):
         raise EngineError('stale facts file: nonce mismatch')
     if prog.missing:
         raise EngineError('bodies missing from extraction: %s' % prog.missing[:5])
+    if _keep:
+        import gzip
+        with open(out, 'rb') as fi, gzip.open(_keep + '.tmp', 'wb', compresslevel=3) as fo:
+            fo.write(fi.read())
+        os.replace(_keep + '.tmp', _keep)
     os.remove(out)
+    return prog
+
+
+def tree_key(repo):
+    """content hash of everything the extraction of a scratch copy depends on: its sources, manifest, lock file and the driver"""
+    h = hashlib.sha256()
+    for base, dirs, files in sorted(os.walk(os.path.join(repo, 'src'))):
+        dirs.sort()
+        for fn in sorted(files):
+            p = os.path.join(base, fn)
+            h.update(os.path.relpath(p, repo).encode())
+            with open(p, 'rb') as f:
+                h.update(f.read())
+    for fn in ('Cargo.toml', 'Cargo.lock', 'build.rs'):
+        p = os.path.join(repo, fn)
+        if os.path.exists(p):
+            with open(p, 'rb') as f:
+                h.update(f.read())
+    st = os.stat(DRIVER_BIN) if os.path.exists(DRIVER_BIN) else None
+    h.update(('%s-%s' % (st.st_size, int(st.st_mtime)) if st else 'nodriver').encode())
+    return h.hexdigest()[:32]
+
+
+def extract_scratch(repo, target=None, tag='mut'):
+    """extraction of a *scratch copy* (self-test mutants, never /repo itself) with a content-addressed cache of the facts:
+    the same mutated tree is extracted once for all properties of a thorough run"""
+    build_driver()
+    d = os.path.join(CACHE, 'mutfacts')
+    os.makedirs(d, exist_ok=True)
+    key = tree_key(repo)
+    path = os.path.join(d, key + '.json.gz')
+    try:
+        ents = sorted((os.path.getmtime(os.path.join(d, x)), x) for x in os.listdir(d))
+        for _, x in ents[:max(0, len(ents) - 900)]:
+            os.remove(os.path.join(d, x))
+    except OSError:
+        pass
+    if os.path.exists(path):
+        try:
+            return core.Program(path)
+        except Exception:
+            os.remove(path)
+    import gzip, shutil
+    keep = {}
+    orig_remove = os.remove
+    prog = None
+    # run a normal extraction but keep a compressed copy of the facts file
+    os.makedirs(CACHE, exist_ok=True)
+    prog = extract(repo=repo, target=target, tag=tag, _keep=path)
     return prog
 
 
